@@ -174,3 +174,72 @@ fn kb_array_insert_into_nonarray() {
     let nv = sc_str1().it;
     check_array_insert(&[elem], &doc, nv, &layout_scalar(&nv));
 }
+
+// ---- experiments
+#[kani::proof]
+#[kani::unwind(40)]
+#[kani::stub(crate::parser::parse_value, no_text_e)]
+fn kx_del_concrete() {
+    let a = [sc_w2().it, sc_float9().it, sc_str1().it, sc_w0().it];
+    let doc = layout_array(&a);
+    let mut buf = out_buf();
+    let r = delete_by_index(doc.as_slice(), 1, &mut buf);
+    assert!(r.is_ok());
+    assert!(appended(&buf, &layout_array(&[a[0], a[2], a[3]])));
+}
+
+#[kani::proof]
+#[kani::unwind(40)]
+#[kani::stub(crate::parser::parse_value, no_text_e)]
+fn kx_del_split() {
+    let a = [sc_w2().it, sc_float9().it, sc_str1().it, sc_w0().it];
+    let doc = layout_array(&a);
+    let index: i32 = kani::any();
+    kani::assume(index >= -6 && index <= 6);
+    let mut buf = out_buf();
+    let r = delete_by_index(doc.as_slice(), index, &mut buf);
+    assert!(r.is_ok());
+    let eff = if index < 0 { 4 + index } else { index };
+    if eff == 0 { assert!(appended(&buf, &layout_array(&[a[1], a[2], a[3]]))); }
+    else if eff == 1 { assert!(appended(&buf, &layout_array(&[a[0], a[2], a[3]]))); }
+    else if eff == 2 { assert!(appended(&buf, &layout_array(&[a[0], a[1], a[3]]))); }
+    else if eff == 3 { assert!(appended(&buf, &layout_array(&[a[0], a[1], a[2]]))); }
+    else { assert!(appended(&buf, &doc)); }
+}
+
+#[kani::proof]
+#[kani::unwind(40)]
+#[kani::stub(crate::parser::parse_value, no_text_e)]
+fn kx_del_concrete_small() {
+    let a = [sc_w2().it, sc_w0().it];
+    let doc = layout_array(&a);
+    let mut buf = out_buf();
+    let r = delete_by_index(doc.as_slice(), 1, &mut buf);
+    assert!(r.is_ok());
+    assert!(appended(&buf, &layout_array(&[a[0]])));
+}
+
+#[kani::proof]
+#[kani::unwind(8)]
+fn kx_builder_direct() {
+    let p: [u8; 2] = kani::any();
+    let mut b = ArrayBuilder::new(2);
+    b.push_raw(JEntry::make_number_jentry(2), &p);
+    b.push_raw(JEntry::make_null_jentry(), &[]);
+    let mut buf = out_buf();
+    b.build_into(&mut buf);
+    assert!(buf.len() == 2 + 14);
+    assert!(buf[2] == 0x80 && buf[5] == 2 && buf[14] == p[0]);
+}
+
+#[kani::proof]
+#[kani::unwind(18)]
+#[kani::stub(crate::parser::parse_value, no_text_e)]
+fn kx_del_concrete_small18() {
+    let a = [sc_w2().it, sc_w0().it];
+    let doc = layout_array(&a);
+    let mut buf = out_buf();
+    let r = delete_by_index(doc.as_slice(), 1, &mut buf);
+    assert!(r.is_ok());
+    assert!(appended(&buf, &layout_array(&[a[0]])));
+}
